@@ -16,7 +16,7 @@ MANIFEST = {
     'text': 'Coq proof that the model of RealFloat/Float arithmetic (+,-,*,**,neg,pos,abs,compare,split,normalize,int) '
             'denotes the real operations for all encodings (unbounded); tied to /repo by running every operation on all '
             'pairs of small encodings and random wide values on both fpy2 and the model.',
-    'technique': 'machine-checked proof in Coq (Flocq reals) + model/implementation correspondence by vm_compute',
+    'technique': 'machine-checked proof in Coq (Flocq reals) + model/implementation correspondence by vm_compute + model of the integer core regenerated from the Python source on every run (py2v translator) with bridge lemmas re-proved',
 }
 
 HEADER = ('From Coq Require Import ZArith List Bool.\n'
